@@ -8,7 +8,7 @@ import (
 )
 
 // FaultKinds lists the corruptions a plan may ask for.
-var FaultKinds = []string{"bitflip", "bitflip", "truncate", "extend", "empty", "garbage", "swap", "swap", "stale-head", "old-record-head", "forged-record", "forged-record", "forged-chain", "forged-chain", "other-log", "other-log-head", "error", "drop-sig", "dup-line", "future-head", "foreign-key-head", "foreign-key-head"}
+var FaultKinds = []string{"bitflip", "bitflip", "truncate", "extend", "empty", "garbage", "swap", "swap", "stale-head", "old-record-head", "forged-record", "forged-record", "forged-chain", "forged-chain", "other-log", "other-log-head", "error", "drop-sig", "dup-line", "future-head", "foreign-key-head", "foreign-key-head", "partial-error-full-forged", "partial-error-full-forged"}
 
 type forgery struct {
 	id    int64
@@ -83,6 +83,23 @@ func (o *Ops) apply(f Fault, op, name string, data []byte, err error) ([]byte, e
 		return []byte("\x00garbage\nnot a record\n\n— x AAAA\n"), nil
 	case "error":
 		return nil, errors.New("injected I/O error")
+	case "partial-error-full-forged":
+		// the partial tile cannot be fetched; the complete tile at the same position, which the client asks
+		// for next, is served with its genuine first W hashes and a forged remainder
+		if op == "remote" && class == "tile" {
+			if t, ok := ParseTilePath(strings.TrimPrefix(name, "/")); ok && t.W < 1<<uint(t.H) {
+				full := t
+				full.W = 1 << uint(t.H)
+				o.mu.Lock()
+				if o.forgeFull == nil {
+					o.forgeFull = map[string]int{}
+				}
+				o.forgeFull["/"+full.Path()] = t.W
+				o.mu.Unlock()
+				return nil, errors.New("injected I/O error (partial tile)")
+			}
+		}
+		return d, err
 	case "drop-sig":
 		// drop the last signature line (heads and lookup responses end with one)
 		if i := strings.LastIndex(strings.TrimSuffix(string(d), "\n"), "\n"); i >= 0 {
